@@ -9,29 +9,46 @@ set_option linter.unusedSectionVars false
 namespace CamVerif.XmlParse
 variable {F : Type}
 
-/-- `b` extends the interner of `a` and holds exactly the same stored nodes -/
-def Grows (a b : St F) : Prop := a.le b ∧ b.nodes = a.nodes
+/-- `b` extends the interner and the value store of `a` (both append-only: ids handed out
+before keep their name / their cell) and holds exactly the same stored nodes -/
+def Grows (a b : St F) : Prop :=
+  a.le b ∧ b.nodes = a.nodes ∧ ∃ more, b.values = a.values ++ more
 
-theorem Grows.refl (a : St F) : Grows a a := ⟨St.le_refl a, rfl⟩
+theorem Grows.refl (a : St F) : Grows a a := ⟨St.le_refl a, rfl, [], by simp⟩
 
-theorem Grows.trans {a b c : St F} (h1 : Grows a b) (h2 : Grows b c) : Grows a c :=
-  ⟨St.le_trans h1.1 h2.1, by rw [h2.2, h1.2]⟩
+theorem Grows.trans {a b c : St F} (h1 : Grows a b) (h2 : Grows b c) : Grows a c := by
+  obtain ⟨l1, n1, m1, v1⟩ := h1
+  obtain ⟨l2, n2, m2, v2⟩ := h2
+  exact ⟨St.le_trans l1 l2, by rw [n2, n1], m1 ++ m2, by rw [v2, v1, List.append_assoc]⟩
 
 theorem le_internS (n : Str) (st : St F) : st.le (internS n st).2 := by
   obtain ⟨⟨more, hm⟩, _⟩ := internName_spec st.names n
   exact ⟨more, by simpa [internS] using hm⟩
 
 theorem grows_internS {a b : St F} (n : Str) (h : Grows a b) : Grows a (internS n b).2 :=
-  h.trans ⟨le_internS n b, rfl⟩
+  h.trans ⟨le_internS n b, rfl, [], by simp [internS]⟩
 
 theorem grows_storeS {a b : St F} (v : Value F) (h : Grows a b) : Grows a (storeS v b).2 :=
-  h.trans ⟨le_storeS v b, rfl⟩
+  h.trans ⟨le_storeS v b, rfl, [v], by simp [storeS]⟩
 
 theorem grows_invalS {a b : St F} (l : List Nat) (t : Nat) (h : Grows a b) :
-    Grows a (invalS l t b) := h.trans ⟨le_invalS l t b, rfl⟩
+    Grows a (invalS l t b) := h.trans ⟨le_invalS l t b, rfl, [], by simp [invalS]⟩
 
 theorem grows_fresh {a b : St F} (h : Grows a b) : Grows a { b with fresh := b.fresh + 1 } :=
-  h.trans ⟨⟨[], by simp⟩, rfl⟩
+  h.trans ⟨⟨[], by simp⟩, rfl, [], by simp⟩
+
+/-- `ValueStoreBuilder::store` always opens a NEW cell: the id handed out is different from
+every id handed out before, and the earlier cell keeps its value (no aliasing of declared
+immediates, whatever their values). -/
+theorem storeS_fresh_cell (v w : Value F) (st st' : St F) (h : Grows (storeS v st).2 st') :
+    (storeS v st).1 < (storeS w st').1 ∧
+      (storeS w st').2.values[(storeS v st).1]? = some v ∧
+      (storeS w st').2.values[(storeS w st').1]? = some w := by
+  obtain ⟨_, _, more, hv⟩ := h
+  simp only [storeS] at hv ⊢
+  refine ⟨by rw [hv]; simp, ?_, by simp⟩
+  rw [hv]
+  simp [List.getElem?_append_left, List.append_assoc]
 
 /-- `f` only grows the state -/
 def GrowsF {α β : Type} (f : α → St F → β × St F) : Prop := ∀ x s, Grows s (f x s).2
@@ -126,7 +143,7 @@ theorem Keeps.trans {a b c : St F} (h1 : Keeps a b) (h2 : Keeps b c) : Keeps a c
   ⟨St.le_trans h1.1 h2.1, fun id d h => h2.2 id d (h1.2 id d h)⟩
 
 theorem Grows.keeps {a b : St F} (h : Grows a b) : Keeps a b :=
-  ⟨h.1, fun id d hs => by unfold Stored at *; rw [h.2]; exact hs⟩
+  ⟨h.1, fun id d hs => by unfold Stored at *; rw [h.2.1]; exact hs⟩
 
 /-- with debug assertions a successful `store_node` keeps every other stored node (an id that
 is already taken panics) and the new node is stored -/
